@@ -255,8 +255,29 @@ def _manual_sequences(max_len):
 
 
 # ----------------------------------------------------------------------------- auto() with real threads
-def run_auto_threads(kind, repeat_seed=0):
-    """returns Problem or None"""
+def run_auto_threads(kind, timeout=15.0):
+    """returns Problem or None; the scenario runs in a helper thread so that a spinner that never stops
+    (join() blocking for ever) is reported instead of hanging the checker"""
+    box = {}
+
+    def work():
+        try:
+            box["result"] = _auto_threads_scenario(kind)
+        except BaseException as e:  # harness error: re-raised in the caller
+            box["error"] = e
+
+    t = _real_threading.Thread(target=work)
+    t.daemon = True
+    t.start()
+    t.join(timeout)
+    if t.is_alive():
+        return Problem("auto|hang|" + kind, "auto() with body %r did not come back within %.0f s" % (kind, timeout))
+    if "error" in box:
+        raise box["error"]
+    return box["result"]
+
+
+def _auto_threads_scenario(kind):
     import clikit.ui.components.progress_indicator as pim
     from clikit.ui.components import ProgressIndicator
 
@@ -791,19 +812,6 @@ def bounded(ctx):
     finally:
         pim.time = saved_time
 
-    # ---- auto() with the real threading module
-    reps = 4 if quick else 40
-    kinds = ["return", "work", "message", "Exception", "Exception-at-once", "KeyboardInterrupt", "SystemExit"]
-    ctx.check("auto_threads", "auto() with real threads (spinner sleep shortened to 1 ms, interval 2 ms), bodies %s, %d repetitions each; the OS chooses the interleaving" % (kinds, reps))
-    fails = _Failures(ctx)
-    for kind in kinds:
-        for r in range(reps):
-            prob = run_auto_threads(kind)
-            ctx.case([kind, r], nontrivial=kind != "return", sample=kind)
-            if prob is not None:
-                fails.add(prob.sig, prob.what, {"auto_threads": True, "kind": kind})
-    ctx.done(exhaustive=False, note=fails.note())
-
     # ---- auto() under the deterministic scheduler
     bound = 4 if quick else 99
     bodies = BODIES if quick else BODIES_THOROUGH
@@ -823,6 +831,24 @@ def bounded(ctx):
                 complete = False
                 break
     ctx.done(exhaustive=complete, note=fails.note())
+
+    # (the real-thread check comes last: a spinner it cannot stop must not disturb the scheduler runs)
+    # ---- auto() with the real threading module
+    reps = 4 if quick else 40
+    kinds = ["return", "work", "message", "Exception", "Exception-at-once", "KeyboardInterrupt", "SystemExit"]
+    ctx.check("auto_threads", "auto() with real threads (spinner sleep shortened to 1 ms, interval 2 ms), bodies %s, %d repetitions each; the OS chooses the interleaving" % (kinds, reps))
+    fails = _Failures(ctx)
+    hung = False
+    for kind in kinds:
+        for r in range(reps):
+            if hung:
+                break
+            prob = run_auto_threads(kind, 5.0)
+            ctx.case([kind, r], nontrivial=kind != "return", sample=kind)
+            if prob is not None:
+                fails.add(prob.sig, prob.what, {"auto_threads": True, "kind": kind})
+                hung = prob.sig.startswith("auto|hang")  # threads are left behind: stop here
+    ctx.done(exhaustive=False, note=fails.note() + ("; stopped after a hang" if hung else ""))
 
 
 def replay_bounded(check_id, failure):
